@@ -40,7 +40,7 @@ func inServerPkg(fn *ssa.Function) bool {
 // durability point.
 func ruleR2(c *Ctx, id string) {
 	V, P, R := c.V, c.P, c.R
-	R.Rule(id, "only fstxn.commitWait/CommitFh call the journal's durability points; both write the allocator bitmaps (PreCommit) before and run PostCommit after, on every path", 7)
+	R.Rule(id, "only fstxn.commitWait/CommitFh call the journal's durability points; both write the allocator bitmaps (PreCommit) before and run PostCommit after, on every path", 20)
 	dur := funcIs(V.JrnlCommitWait, V.LogFlush, V.LogCommitWait)
 	allowed := map[*ssa.Function]bool{V.commitWait: true, V.CommitFh: true}
 	for _, fn := range P.RepoFuncs() {
@@ -164,7 +164,7 @@ func waitConst(c *Ctx, f *ssa.Function, depth int) (bool, bool) {
 
 func ruleR3(c *Ctx, id string) {
 	V, P, R := c.V, c.P, c.R
-	R.Rule(id, "allocation bookkeeping: AllocNum only in AllocINum/AllocBlock with the result recorded unless null; the four lists have fixed writers; PreCommit writes all four lists with the matching bitmap and polarity; FreeNum only in PostCommit (free lists) and PostAbort (alloc lists)", 14)
+	R.Rule(id, "allocation bookkeeping: AllocNum only in AllocINum/AllocBlock with the result recorded unless null; the four lists have fixed writers; PreCommit writes all four lists with the matching bitmap and polarity; FreeNum only in PostCommit (free lists) and PostAbort (alloc lists)", 33)
 	lists := map[string]*ssa.Function{"allocInums": V.AllocINum, "allocBnums": V.AllocBlock, "freeInums": V.FreeINum, "freeBnums": V.FreeBlock}
 	allocBegin := P.Func("alloctxn.Begin")
 	// (a) who may call AllocNum / FreeNum
